@@ -121,6 +121,9 @@ class Abs where
   /-- the backend's `/` (integer or real division depending on the operands; `Val` has no
       non-integer numbers, so it stays abstract) -/
   div : Val → Val → Val
+  /-- the backend's `x LIKE y [ESCAPE c]` / `x ILIKE y [ESCAPE c]` (three-valued) -/
+  like : Val → Val → Option String → TV
+  ilike : Val → Val → Option String → TV
 
 /-- `COALESCE(v₁, …)`: the first value that is not NULL -/
 def coalesceVal (args : List Val) : Val := (args.find? (fun v => v != Val.null)).getD .null
@@ -202,6 +205,10 @@ def stdInf [Abs] (s : Sym) (a b : SV) : SV :=
   | .percent => .s (evalArith .mod a.scalar b.scalar)
   | .slash => .s (Abs.div a.scalar b.scalar)
   | .concat => .s (evalArith .concat_op a.scalar b.scalar)
+  | .like => .s (ofTV (Abs.like a.scalar b.scalar none))
+  | .notLike => .s (ofTV (not3 (Abs.like a.scalar b.scalar none)))
+  | .ilike => .s (ofTV (Abs.ilike a.scalar b.scalar none))
+  | .notIlike => .s (ofTV (not3 (Abs.ilike a.scalar b.scalar none)))
   | _ => .s .null
 
 open SaVerif.Pratt in
@@ -213,7 +220,17 @@ def stdI [Abs] (env : String → Val) : Interp SV where
     | .neg => match v.scalar with | .int i => .s (.int (-i)) | _ => .s .null
     | _ => .s .null
   inf := stdInf
-  tern := fun _ _ _ _ _ => .s .null
+  tern := fun s m a b c =>
+    -- `a LIKE b ESCAPE c`
+    match m, c.scalar with
+    | .escape, .str ch =>
+      (match s with
+       | .like => .s (ofTV (Abs.like a.scalar b.scalar (some ch)))
+       | .notLike => .s (ofTV (not3 (Abs.like a.scalar b.scalar (some ch))))
+       | .ilike => .s (ofTV (Abs.ilike a.scalar b.scalar (some ch)))
+       | .notIlike => .s (ofTV (not3 (Abs.ilike a.scalar b.scalar (some ch))))
+       | _ => .s .null)
+    | _, _ => .s .null
   br := fun k v =>
     match k with
     | .paren => v
